@@ -98,11 +98,27 @@ impl<'ctx> CodeFinder<'ctx>
         }
 
         for entry in WalkDir::new(&self.context.config.source_dir)
-            .into_iter()
-            .filter_map(|e| e.ok())
-            .filter(|e| e.file_type().is_file())
         {
             use std::sync::atomic;
+
+            /*
+             * A directory that can't be listed hides the files below it, and with them the
+             * references they carry - so the search fails rather than carrying on without them.
+             */
+            let entry = match entry
+            {
+                Ok(entry) => entry,
+                Err(e) =>
+                {
+                    error!("[ref: 39] Failed to search the source directory: {}", e);
+                    return false;
+                },
+            };
+
+            if !entry.file_type().is_file()
+            {
+                continue;
+            }
 
             if self.context.stop_commanded.load(atomic::Ordering::Relaxed)
             {
